@@ -116,14 +116,40 @@ class Module:
         return out
 
 
+class _Modules(dict):
+    """rel -> Module; a module's parameter / local names are mapped back to the names the rules expect
+    (sa/localnames.py) the first time it is handed out"""
+
+    @staticmethod
+    def _ready(m):
+        if getattr(m, "_needs_names", False):
+            m._needs_names = False
+            from . import localnames
+            m.renamed_functions = localnames.normalise_module(m)
+        return m
+
+    def __getitem__(self, k):
+        return self._ready(dict.__getitem__(self, k))
+
+    def get(self, k, default=None):
+        m = dict.get(self, k, default)
+        return self._ready(m) if m is not default else default
+
+    def values(self):
+        return [self._ready(m) for m in dict.values(self)]
+
+    def items(self):
+        return [(k, self._ready(m)) for k, m in dict.items(self)]
+
+
 class Project:
     """All python modules under <root>/ppci, parsed; optional overlay."""
 
-    def __init__(self, root, overlay=None, subdir="ppci", base=None):
+    def __init__(self, root, overlay=None, subdir="ppci", base=None, normalise_names=True):
         self.root = root
         self.overlay = dict(overlay or {})
-        self.modules = {}
-        self.by_modname = {}
+        self.modules = _Modules()
+        self.by_modname = _Modules()
         self.parse_errors = []
         basedir = os.path.join(root, subdir)
         if not os.path.isdir(basedir):
@@ -146,21 +172,23 @@ class Project:
                     src = fh.read()
             h.update(rel.encode())
             h.update(src.encode())
-            if base is not None and rel in base.modules and base.modules[rel].source == src:
-                self.modules[rel] = base.modules[rel]
-                self.by_modname[base.modules[rel].modname] = base.modules[rel]
+            bm = dict.get(base.modules, rel) if base is not None else None
+            if bm is not None and bm.source == src:
+                dict.__setitem__(self.modules, rel, bm)
+                dict.__setitem__(self.by_modname, bm.modname, bm)
                 continue
             try:
                 m = Module(rel, src)
             except SyntaxError as e:
                 self.parse_errors.append((rel, str(e)))
                 continue
+            m._needs_names = bool(normalise_names)
             self.modules[rel] = m
             self.by_modname[m.modname] = m
         self.digest = h.hexdigest()[:16]
         self.n_functions = sum(
             1
-            for m in self.modules.values()
+            for m in dict.values(self.modules)
             for n in ast.walk(m.tree)
             if isinstance(n, (ast.FunctionDef, ast.AsyncFunctionDef))
         )
